@@ -175,6 +175,28 @@ Section RepairProofs.
   Proof.
     unfold repair_tree. fold mt. apply tree_files_ok. intros x _. eapply node_ok_all. apply Nat.le_refl.
   Qed.
+  (* RESULT 4: missing subtrees.  A directory whose subtree cannot be loaded stays in its parent, with its name and
+     metadata, as an EMPTY directory; a directory node without subtree id gets an empty tree; both flag a change.
+     A directory whose subtree loads keeps name and metadata and gets the repaired subtree. *)
+  Lemma repair_missing_subtree_lemma path a m t c s :
+    (readable s = false ->
+       mn path (Node a KDir m t c s) = (Some (Node a KDir m t c []), negb (tree_eqb [] s)) \/
+       mn path (Node a KDir m t c s) = (Some (Node a KDir m t c s), false) /\ s = []) /\
+    mn path (Node a KDirNoSub m t c s) = (Some (Node a KDir m t c []), true) /\
+    (readable s = true ->
+       fst (mn path (Node a KDir m t c s)) = Some (Node a KDir m t c (result_tree s (mt (path ++ [a]) s)))).
+  Proof.
+    split; [|split].
+    - intro Hr. unfold mn. rewrite modify_node_unfold. cbn [rp_visit]. unfold modify_tree. rewrite Hr. unfold finish.
+      change modifier_sorts_changed_trees with true. cbv iota. change (sort_tree []) with ([] : tree). cbn [andb].
+      destruct (tree_eqb [] s) eqn:E; cbn [negb].
+      + right. split; [reflexivity|]. symmetry. apply tree_eqb_sound. exact E.
+      + left. reflexivity.
+    - unfold mn. rewrite modify_node_unfold. reflexivity.
+    - intros _. assert (rp_visit has_data mark resize (path ++ [a]) (Node a KDir m t c s) = AVisit (Node a KDir m t c s) false) as Hv by reflexivity.
+      unfold mn. rewrite (modify_node_visit_value _ _ _ _ _ _ _ _ _ _ _ Hv eq_refl). reflexivity.
+  Qed.
+
   (* RESULT 3: a tree written by repair is in name order again (the marker suffix can move a file) *)
   Lemma repair_result_sorted_lemma t st :
     repair_tree has_data mark resize readable t = Changed st -> sorted_le st.
@@ -209,6 +231,29 @@ Proof.
   - right. apply in_flat_map. exists t. split; assumption.
 Qed.
 
+(* copy from ANY source (closed or not): every reachable blob the source index knows ends up in the destination
+   index — the destination is exactly as closed as the source; ids unknown to the source are skipped *)
+Lemma copy_closed_relative_lemma : forall tid src dst snaps es s,
+  P13.run P13.init es = Some s -> P13.final s = true ->
+  (forall b, In b (needed tid src dst snaps) -> In (conv b) (P13.requested s)) ->
+  (forall b, In b (flat_map (reach tid) snaps) -> has src b = true -> has (dst ++ indexed_blobs s) b = true) /\
+  (forall b, In b (needed tid src dst snaps) -> has src b = true /\ has dst b = false).
+Proof.
+  intros tid src dst snaps es s Hrun Hfin Hreq. split.
+  - intros b Hb Hs. rewrite has_app. destruct (has dst b) eqn:Ed; [reflexivity|]. cbn [orb].
+    assert (In b (needed tid src dst snaps)) as Hn.
+    { unfold needed. apply filter_In. split; [apply seen_covers_reach; exact Hb|].
+      change copy_skips_ids_unknown_to_source with true. cbv iota. rewrite Ed, Hs. reflexivity. }
+    specialize (Hreq b Hn). destruct b as [t i]. unfold conv in Hreq. cbn [fst snd] in Hreq.
+    destruct (Verif.C13.Props.every_final_state_indexes_all_typed es s Hrun Hfin (or_introl eq_refl) _ _ Hreq) as [pk [Hpk Hi]].
+    apply has_in. unfold indexed_blobs. apply in_flat_map.
+    eexists. split; [exact Hpk|]. cbn [fst snd]. apply in_map_iff. exists i. split; [|exact Hi].
+    destruct t; reflexivity.
+  - intros b Hb. unfold needed in Hb. apply filter_In in Hb. destruct Hb as [_ Hb].
+    change copy_skips_ids_unknown_to_source with true in Hb. cbv iota in Hb.
+    apply andb_true_iff in Hb. destruct Hb as [H1 H2]. split; [exact H2|]. destruct (has dst b); [discriminate | reflexivity].
+Qed.
+
 Lemma copy_closed_lemma : forall tid src dst snaps es s,
   (forall b, In b (flat_map (reach tid) snaps) -> has src b = true) ->
   P13.run P13.init es = Some s -> P13.final s = true ->
@@ -218,7 +263,8 @@ Proof.
   intros tid src dst snaps es s Hsrc Hrun Hfin Hreq b Hb. rewrite has_app.
   destruct (has dst b) eqn:Ed; [reflexivity|]. cbn [orb].
   assert (In b (needed tid src dst snaps)) as Hn.
-  { unfold needed. apply filter_In. split; [apply seen_covers_reach; exact Hb|]. rewrite Ed, (Hsrc b Hb). reflexivity. }
+  { unfold needed. apply filter_In. split; [apply seen_covers_reach; exact Hb|].
+    change copy_skips_ids_unknown_to_source with true. cbv iota. rewrite Ed, (Hsrc b Hb). reflexivity. }
   specialize (Hreq b Hn). destruct b as [t i]. unfold conv in Hreq. cbn [fst snd] in Hreq.
   destruct (Verif.C13.Props.every_final_state_indexes_all_typed es s Hrun Hfin (or_introl eq_refl) _ _ Hreq) as [pk [Hpk Hi]].
   apply has_in. unfold indexed_blobs. apply in_flat_map.
